@@ -225,6 +225,13 @@ inheritance
             }
             scratch_free($3);
 
+            /* F_CALL_INHERITED ('::' calls and the calls of the inherited
+             * variable initializers) names the inherited program in one byte */
+            if (NUM_INHERITS >= 256) {
+                yyerror("Too many inherit statements (at most 256 programs can be inherited directly).");
+                YYACCEPT;
+            }
+
             inherit.prog = ob->prog;
             inherit.function_index_offset = (function_index_t)(mem_block[A_RUNTIME_FUNCTIONS].current_size / sizeof (runtime_function_u));
             inherit.variable_index_offset = (unsigned short)(mem_block[A_VAR_TEMP].current_size / sizeof (variable_t));
